@@ -1,5 +1,6 @@
 SPECIFICATION Spec
 CONSTANTS
+  MaxCalls = 3
   AsImplemented = FALSE
 INVARIANTS NoUseLeft SuccsLive Complete
 PROPERTIES WriteExact
